@@ -16,6 +16,12 @@ package internal
 //@   loop 1:
 //@     invariant[idx] 1 <= i
 
+//@ func ConcatItems
+//@   props C14 C04
+//@   skip pre
+//@   note the value concatMaps / concatSliceValue return holds a T; boxed by Interface() it is a T, or a nil interface when T is an interface type and the value is its nil value (all chunks nil)
+//@   after call cv.Interface: assume result == nil || is(result, "T")
+
 //@ func concatSliceValue
 //@   props C14 C04
 //@   note reflect.Value operations are opaque (arbitrary results); what is checked is the scan discipline of the "single non-zero chunk" rule: the chunks are examined one by one from the first
